@@ -578,7 +578,9 @@ Proof.
   rewrite n_pending_blur, cov_blur, IH. reflexivity.
 Qed.
 
-(** ** the checkers that do not mention the length of the source judge a history alike under [e] and [cut e g] *)
+(** ** the checkers that do not mention the length of the source judge a history alike under [e] and [cut e g];
+       those that mention it as an upper bound of what is delivered only (no duplicate, index fidelity) hold
+       under [e] when they hold under [cut e g], whose source is not longer *)
 
 Lemma cov_cut e g tr : cov (cut e g) tr = cov e tr.
 Proof. induction tr as [|ev tr IH]; [reflexivity|]. destruct ev; cbn [cov]; rewrite ?IH; reflexivity. Qed.
@@ -586,11 +588,25 @@ Proof. induction tr as [|ev tr IH]; [reflexivity|]. destruct ev; cbn [cov]; rewr
 Lemma cov_of_cut e g t tr : cov_of (cut e g) t tr = cov_of e t tr.
 Proof. induction tr as [|ev tr IH]; [reflexivity|]. destruct ev; cbn [cov_of]; rewrite ?IH; reflexivity. Qed.
 
-Lemma nodup_cut e g tr : chk_C01_nodup (cut e g) tr = chk_C01_nodup e tr.
-Proof. unfold chk_C01_nodup. rewrite cov_cut. reflexivity. Qed.
+(** the two checkers that bound what is delivered by the length of the source: what lies inside the shorter
+    source lies inside the longer one *)
+Lemma nodup_cut e g tr : chk_C01_nodup (cut e g) tr = true -> chk_C01_nodup e tr = true.
+Proof.
+  unfold chk_C01_nodup. rewrite cov_cut. intros H. apply andb_true_iff in H. destruct H as [H1 H2].
+  rewrite H1. cbn [andb]. apply iv_within_mono with (e_len (cut e g)); [apply cut_len_le|exact H2].
+Qed.
 
-Lemma C02_cut e g tr : chk_C02 (cut e g) tr = chk_C02 e tr.
-Proof. unfold chk_C02. apply all_rets_ext. intros t r d tl. reflexivity. Qed.
+Lemma run_idx_ok_cut e g r : run_idx_ok (cut e g) r = true -> run_idx_ok e r = true.
+Proof.
+  intros H. apply run_idx_ok_intro. intros Hz. destruct (run_idx_ok_elim _ _ H Hz) as (b & Hv & Hb & Hi).
+  exists b. split; [exact Hv|]. split; [pose proof (cut_len_le e g); lia|exact Hi].
+Qed.
+
+Lemma C02_cut e g tr : chk_C02 (cut e g) tr = true -> chk_C02 e tr = true.
+Proof.
+  unfold chk_C02. apply all_rets_impl. intros t r d tl. unfold ev_C02. rewrite !forallb_forall.
+  intros H x Hx. apply run_idx_ok_cut with g. apply H. exact Hx.
+Qed.
 
 Lemma C04_order_cut e g tr : chk_C04_order (cut e g) tr = chk_C04_order e tr.
 Proof.
@@ -653,7 +669,8 @@ Qed.
 
 Print Assumptions iter_after_first_gap.
 
-(** ** the properties that do not mention the length of the source hold for every wrapped iterator, as stated
+(** ** the properties that do not mention the length of the source, or mention it only as an upper bound of
+       the positions delivered, hold for every wrapped iterator, as stated
 
     no position is delivered twice (the checker of C01 itself, with its mixed accounting by indices and
     values: indices and positions never differ, because nothing is delivered after the first None), index
@@ -674,8 +691,12 @@ Proof.
       fold tr ls in H1, H2, H4, H6. cbn [check_prop] in H1. apply andb_true_iff in H1. destruct H1 as [H1 _]. auto.
     - destruct (iter_after_first_gap e Hie g Hfg progs Hp sched Hw) as (H1 & H2 & _ & H4 & H6 & _).
       fold tr ls in H1, H2, H4, H6. cbn [check_prop] in *. unfold chk_C06 in *.
-      rewrite ?nodup_cut, ?C02_cut, ?C04_order_cut, ?C04_prefix_cut, ?C06_stop_cut in *.
-      apply andb_true_iff in H1. destruct H1 as [H1 _]. auto. }
+      rewrite ?C04_order_cut, ?C04_prefix_cut, ?C06_stop_cut in *.
+      apply andb_true_iff in H1. destruct H1 as [H1 _]. apply nodup_cut in H1. apply C02_cut in H2.
+      apply andb_true_iff in H4. destruct H4 as [H4 H4p]. apply andb_true_iff in H4. destruct H4 as [_ H4o].
+      apply andb_true_iff in H6. destruct H6 as [H6 H6o]. apply andb_true_iff in H6. destruct H6 as [H6 _].
+      apply andb_true_iff in H6. destruct H6 as [H6 _].
+      rewrite H1, H2, H4o, H4p, H6. auto. }
   destruct Hmain as (H1 & H2 & H4 & H6). repeat split; try assumption.
   cbn [check_prop] in H2. rewrite H12, H1, H2, H5. reflexivity.
 Qed.
